@@ -204,6 +204,10 @@ def _mol_pairs(case, M):
 def _obs(M, cnt, variant, case=None):
     if case is not None and case.get("mode") == "mcs_mol":
         return [M._last_pattern_is_G1, M.last_size, cnt, _mol_pairs(case, M)]
+    if case is not None and case.get("prune_auto") and not case.get("mode") and variant == "matcher":
+        # which representative survives is VF2's choice; compared: orientation, size, subsets tried and the SET of host node sets
+        # (one survivor per host set: a duplicate host set would show up twice here and break the comparison with the model)
+        return [M._last_pattern_is_G1, M.last_size, cnt, S([sorted(int(v) for v in m.values()) for m in M.get_mappings()])]
     if variant == "matcher":
         return [M._last_pattern_is_G1, M.last_size, cnt, _dicts(M.get_mappings()), _dicts(M.get_mappings("G1_to_G2")),
                 _dicts(M.get_mappings("G2_to_G1"))]
@@ -216,10 +220,6 @@ def impl(case):
     M, cnt = _run(case)
     if case["variant"] == "matcher":
         assert M.get_mappings() == M.mappings
-    if case.get("prune_auto") and not case.get("mode"):
-        # which representative survives is VF2's choice; compared: orientation, size, subsets tried and the SET of host node sets
-        # (one survivor per host set: a duplicate host set would show up twice here and break the comparison with the model)
-        return [M._last_pattern_is_G1, M.last_size, cnt, S([sorted(int(v) for v in m.values()) for m in M.get_mappings()])]
     return _obs(M, cnt, case["variant"], case)
 
 
@@ -1013,6 +1013,8 @@ def _histories(rng, n, calls=("fcs",)):
                     edge_attrs=["order"], implicit=rng.random() < 0.3)
         if variant == "matcher" and rng.random() < 0.35:
             base["prune_wc"] = True
+        if variant == "matcher" and rng.random() < 0.15:
+            base["prune_auto"] = True
         configs = [base]
         if variant == "matcher" and rng.random() < 0.3:
             configs.append(dict(node_attrs=["element"] if two else ["element", "charge"], node_defaults=["*"] if two else ["*", 0],
